@@ -17,6 +17,9 @@
 //         | e:I | w:I    data: read / write element I
 //         | r:COUNT      data: resize(COUNT, sbepp::default_init)
 //         | a:LEN        data: assign_range(vector of LEN elements)
+//         | fr bk pb pop cl er:A:B er1:A ins:POS:COUNT ins1:POS rs:COUNT
+//                        data: front, back, push_back, pop_back, clear, erase(begin+A, begin+B),
+//                        erase(begin+A), insert(begin+POS, COUNT, v), insert(begin+POS, v), resize(COUNT)
 //         | z            sbepp::size_bytes(current view)
 // For every n (all: 0..|image|) the first n bytes of the image are placed in a buffer of EXACTLY n
 // accessible bytes (the byte at offset n and the following 8 GiB are PROT_NONE, so is the page
@@ -92,6 +95,7 @@ inline path parse_path(const std::string& s)
         else
         {
             k.a = f.size() > 1 ? std::strtoull(f[1].c_str(), nullptr, 10) : 0;
+            k.b = f.size() > 2 ? std::strtoull(f[2].c_str(), nullptr, 10) : 0;
         }
         p.push_back(k);
     }
@@ -225,6 +229,48 @@ void data_ops(D d, const path& p, std::size_t i)
     {
         std::vector<V> v(static_cast<std::size_t>(t.a), static_cast<V>(0x5a));
         d.assign_range(v);
+    }
+    // container operations at boundary positions (judged against the specification only)
+    else if(t.k == "fr")
+    {
+        sink(static_cast<unsigned char>(d.front()));
+    }
+    else if(t.k == "bk")
+    {
+        sink(static_cast<unsigned char>(d.back()));
+    }
+    else if(t.k == "pb")
+    {
+        d.push_back(static_cast<V>(0x5a));
+    }
+    else if(t.k == "pop")
+    {
+        d.pop_back();
+    }
+    else if(t.k == "cl")
+    {
+        d.clear();
+    }
+    else if(t.k == "er")
+    {
+        // erase(begin() + a, begin() + b); b == size() is erase(first, end())
+        sink(reinterpret_cast<std::uintptr_t>(d.erase(d.begin() + t.a, d.begin() + t.b)));
+    }
+    else if(t.k == "er1")
+    {
+        sink(reinterpret_cast<std::uintptr_t>(d.erase(d.begin() + t.a)));
+    }
+    else if(t.k == "ins")
+    {
+        sink(reinterpret_cast<std::uintptr_t>(d.insert(d.begin() + t.a, static_cast<S>(t.b), static_cast<V>(0x5a))));
+    }
+    else if(t.k == "ins1")
+    {
+        sink(reinterpret_cast<std::uintptr_t>(d.insert(d.begin() + t.a, static_cast<V>(0x5a))));
+    }
+    else if(t.k == "rs")
+    {
+        d.resize(static_cast<S>(t.a));
     }
     else
     {
